@@ -12,7 +12,7 @@ ID = "C08"
 LEVEL = "model_checking"
 LEVEL_TEXT = ("Explicit enumeration of every nesting tree with <=4 items (thorough <=5) and depth <=3 over 10 leaf kinds (define label / "
               "`=` / `:=` for names a,b; reference a,b; qualified reference s.a, s.b, t.a) and 5 containers (block, .scope s, .scope t, "
-              "macro application, 2-iteration loop), plus all trees with 5 items (thorough 6) over a reduced alphabet and over an 'early evaluation' alphabet (width-inferred `lda a`, `u = a + 1`) and a 'repeated application' alphabet (the same macro applied twice, a loop whose variable is spelled like an outer name); each rendered "
+              "macro application, 2-iteration loop), plus all trees with 5 items (thorough 6) over a reduced alphabet and over an 'early evaluation' alphabet (width-inferred `lda a`, `u = a + 1`) and a 'repeated application' alphabet (the same macro applied twice, a loop whose variable is spelled like an outer name) and an 'underscore' alphabet (names _a and a_1, unqualified and as s._a / s.a_1); each rendered "
               "and assembled by the real assembler and compared with an independent lexical-environment model (bytes of every "
               "reference, rejection of out-of-scope references, label list). Metamorphic relations on every accepted tree: swapping "
               "the names a<->b consistently, and adding an unrelated label inside each scope, leave the output unchanged. "
@@ -35,6 +35,9 @@ CONT_EARLY = ["B", "Ss"]
 # repeated-application family: the SAME macro body applied twice, loops whose variable is spelled like an outer name
 LEAVES_REP = [("dl", "a"), ("de", "a"), ("dc", "a"), ("r", "a"), ("q", "s.a"), ("ri", "a")]
 CONT_REP = ["M2", "Fa", "Ss", "B"]
+# names that start with an underscore, unqualified and as members of a named scope
+LEAVES_UND = [("dl", "_a"), ("de", "_a"), ("r", "_a"), ("q", "s._a"), ("dl", "a_1"), ("q", "s.a_1")]
+CONT_UND = ["B", "Ss", "M"]
 CONT_FULL = ["B", "Ss", "St", "M", "F"]
 LEAVES_RED = [("dl", "a"), ("dl", "b"), ("de", "a"), ("r", "a"), ("r", "b"), ("q", "s.a")]
 CONT_RED = ["B", "Ss", "M"]
@@ -43,8 +46,8 @@ ORG = 0x018000
 
 def bound(tier):
     if tier == "thorough":
-        return "all trees with <=5 items over 10 leaves + 5 containers, depth <=3; all trees with 6 items over 6 leaves + 3 containers; all trees with <=6 items over the 6+2 early-evaluation alphabet ; all trees with one item fewer over the 6+4 repeated-application alphabet"
-    return "all trees with <=4 items over 10 leaves + 5 containers, depth <=3; all trees with 5 items over 6 leaves + 3 containers; all trees with <=5 items over the 6+2 early-evaluation alphabet ; all trees with one item fewer over the 6+4 repeated-application alphabet"
+        return "all trees with <=5 items over 10 leaves + 5 containers, depth <=3; all trees with 6 items over 6 leaves + 3 containers; all trees with <=6 items over the 6+2 early-evaluation alphabet ; all trees with one item fewer over the 6+4 repeated-application alphabet and over the 6+3 underscore-names alphabet"
+    return "all trees with <=4 items over 10 leaves + 5 containers, depth <=3; all trees with 5 items over 6 leaves + 3 containers; all trees with <=5 items over the 6+2 early-evaluation alphabet ; all trees with one item fewer over the 6+4 repeated-application alphabet and over the 6+3 underscore-names alphabet"
 
 
 def seqs(n, d, leaves, conts):
@@ -84,6 +87,9 @@ def cases(tier, seed):
         for fi in range(len(LEAVES_EARLY) + len(CONT_EARLY)):
             yield ("trees", "early", n, fi, None, False)
     for n in range(1, red_n):
+        for fi in range(len(LEAVES_UND) + len(CONT_UND)):
+            yield ("trees", "und", n, fi, None, False)
+    for n in range(1, red_n):
         for fi in range(len(LEAVES_REP) + len(CONT_REP)):
             if n >= 5:
                 for fj in range(len(LEAVES_REP) + len(CONT_REP) + 1):
@@ -103,7 +109,7 @@ def trees_for(alpha, n, fi, fj):
     """Trees of cost n whose first item is item #fi of the alphabet (and, if fj is given, whose second top-level
     item is #fj, with fj == len(alphabet) meaning 'there is no second top-level item')."""
     leaves, conts = {"full": (LEAVES_FULL, CONT_FULL), "red": (LEAVES_RED, CONT_RED), "early": (LEAVES_EARLY, CONT_EARLY),
-                     "rep": (LEAVES_REP, CONT_REP)}[alpha]
+                     "rep": (LEAVES_REP, CONT_REP), "und": (LEAVES_UND, CONT_UND)}[alpha]
     nl = len(leaves)
 
     def first_item(n, d, idx):
